@@ -158,8 +158,17 @@ def main():
         for st in ("bound", "unknown-path"):
             if a.by_status.get(st):
                 inconclusive.append(f"{hn}[{ck}]: {a.by_status[st]} path(s) ended '{st}'")
-        for kind, det in a.mismatches[:3]:
-            inconclusive.append(f"{hn}[{ck}]: ENCODING MISMATCH ({kind}): {str(det)[:400]}")
+        nmm = 0
+        for kind, det in a.mismatches:
+            if kind == "obl-mismatch":
+                # the concrete run of a path model violated an obligation this path proved: an encoding error unless the
+                # floats left the path (tie in round(), knife-edge compare) for a path on which the obligation is refuted anyway
+                labs = det["labels"]
+                if all((a.labels.get(l, {}).get("confirmed", 0) + a.labels.get(l, {}).get("unconfirmed", 0)) > 0 for l in labs):
+                    continue
+            nmm += 1
+            if nmm <= 3:
+                inconclusive.append(f"{hn}[{ck}]: ENCODING MISMATCH ({kind}): {str(det)[:400]}")
         for label, d in a.labels.items():
             lp = label_props(label)
             if prop not in lp and "contract" not in lp:
